@@ -124,6 +124,7 @@ type gcGen struct {
 	depth  int
 	nctx   int
 	files  bool
+	cross  bool // allow re-marking from inside a nested limited context (open finding)
 }
 
 func (g *gcGen) ln(f string, a ...interface{}) {
@@ -267,9 +268,17 @@ func (g *gcGen) stmts(n int) {
 			g.ln(`do local r%d = mk(%d)  -- remarked`, id, id)
 			g.ind++
 			g.stmts(1 + g.t.Choose(3))
-			g.ln(`remark(r%d)`, id)
-			if g.t.Chance(1, 2) {
-				g.ln(`KEEP[#KEEP + 1] = r%d`, id)
+			if g.cross && g.depth == 0 && g.t.Chance(1, 2) {
+				// marked again from inside a limited context nested in the one that owns it (open finding:
+				// the value then sits in both pools)
+				g.nctx++
+				g.ln(`KEEP[#KEEP + 1] = r%d  -- cross`, id)
+				g.ln(`emit("ctx", %d, runtime.callcontext({kill={cpu=100000}}, function() emit("enter", %d) remark(r%d) end).status)`, g.nctx, g.nctx, id)
+			} else {
+				g.ln(`remark(r%d)`, id)
+				if g.t.Chance(1, 2) {
+					g.ln(`KEEP[#KEEP + 1] = r%d`, id)
+				}
 			}
 			g.ind--
 			g.ln(`end`)
@@ -315,6 +324,7 @@ var reEv = regexp.MustCompile(`^(?:emit "(mark|gc2|gcr|gc|rearm|enter|ctx|shared
 
 func runGC(ctx *core.RunCtx) {
 	g := &gcGen{t: ctx.Gen}
+	g.cross = ctx.Gen.Choose(8) == 7
 	g.budget = 6 + ctx.Gen.Choose(20)
 	if ctx.Tier == "thorough" {
 		g.budget = 6 + ctx.Gen.Choose(70)
@@ -488,6 +498,14 @@ func runGC(ctx *core.RunCtx) {
 			objs[id] = &info{isUD: true, hasGC: b, kept: strings.Contains(l, "-- kept")}
 		}
 	}
+	crossIDs := map[int64]bool{}
+	for _, l := range strings.Split(src, "\n") {
+		if strings.Contains(l, "-- cross") {
+			var id int64
+			fmt.Sscanf(l[strings.Index(l, "= r")+3:], "%d", &id)
+			crossIDs[id] = true
+		}
+	}
 	var stack []int
 	ctxKilled := map[int]bool{}
 	ctxClosedAt := map[int]int{}
@@ -572,6 +590,10 @@ func runGC(ctx *core.RunCtx) {
 			o.gcN++
 			o.gcAt = i
 			if o.gcN > 1 {
+				if crossIDs[id] {
+					fail("C18.X1", "finalised-twice:remarked-in-nested-context", "value %d, owned by the outer context and marked again from inside a nested limited context, was finalised when the nested context ended (while still referenced) and again later", id)
+					return
+				}
 				fail("C18.X1", "finalised-twice", "value %d finalised twice", id)
 				return
 			}
